@@ -36,7 +36,7 @@ RULE = (
     "matrices (paths needing the arc->ellipse conversion are skipped and counted); X9 Text/Attdef.transform (both branches: insert, align, "
     "rotation, oblique as (cos, sin), height, width, thickness) and MText.transform (insert, direction, extrusion, char height, width); "
     "X10 rytz_axis_construction on conjugate half-diameters in the plane / in space and on arbitrary pairs, and minor_axis, vs the regenerated kernels; "
-    "X11 MLine.transform scale factor + vertices; X12 Dimension.transform on arbitrary attribute subsets; X13 2-D POLYLINE (own z / elevation, widths, bulges, error); X14 ConstructionEllipse.transform axes (both branches, exchange); X15 HATCH EllipseEdge / converted ArcEdge centre, major axis, ratio; X16 MINSERT row / column spacing; X17 translate() fast paths of every overriding class (live-class table) on tilted extrusions vs the py2lean translations; X4 also Insert.matrix44 vs the kernel regenerated from its own body.  non-trivial = non-default frame / non-similar or mirrored matrix / nesting depth > 1 / "
+    "X11 MLine.transform scale factor + vertices; X12 Dimension.transform on arbitrary attribute subsets; X13 2-D POLYLINE (own z / elevation, widths, bulges, error); X14 ConstructionEllipse.transform axes (both branches, exchange); X15 HATCH EllipseEdge / converted ArcEdge centre, major axis, ratio; X16 MINSERT row / column spacing; X17 translate() fast paths of every overriding class (live-class table) on tilted extrusions vs the py2lean translations; X4 also Insert.matrix44 vs the kernel regenerated from its own body; X18 matrix44 of every multi_insert() grid element vs Ins.gridCell; X19 Shape.transform.  non-trivial = non-default frame / non-similar or mirrored matrix / nesting depth > 1 / "
     "history length > 1; distinct by hash of the request.  oracle: own WCS parametrisation before/after on the real code, see module "
     "docstring (O1 single entity x matrix x API for 28 generators incl. 8 ACIS types, O2 exact rational, O3 nested, O4 upright, O5 histories "
     "of 2-3 matrices x every generator x transform/inplace/copies + commit of pending ACIS transformations, O6 the convenience interface "
@@ -73,16 +73,16 @@ OPEN = [
     "arc span test: modelled by a trigonometry-free predicate (|sin| <= 1e-7) instead of isclose(span, rel_tol=1e-8); semicircle probe "
     "direction differs (1 rad vs rational); both corresponded outside the stated bands",
     "ELLIPSE / arc->ellipse fallback / HATCH ellipse edges: the axes part of ConstructionEllipse.transform is modelled (X14/X15) and "
-    "chained to the kernel theorems by ellipse_transform_cases (+ ellipse_swap_law for the exchange); NOT proved: an exact statement for "
-    "images that are orthogonal only within 1e-6 (the shortcut is exact only for cos = 0), and the start/end parameter adjustment (atan2) "
-    "of open elliptic arcs: oracle only (O1/O3/O5)",
+    "chained to the kernel theorems by ellipse_transform_cases (+ ellipse_swap_law for the exchange, ellipse_shortcut_general for images "
+    "orthogonal only within 1e-6: the stored minor axis is the rescaled rejection, cosine to the true one = sin of the angle); NOT "
+    "proved: the start/end parameter adjustment (atan2) of open elliptic arcs: oracle only (O1/O3/O5)",
     "HATCH: the polyline-with-bulge -> arc-edge conversion before a non-uniform scaling (bulge_to_arc, trigonometry) and ellipse edge "
     "parameters are outside the model (Hatch.transform = none there): oracle only; pattern scaling not covered",
     "MTEXT columns and inline height commands, ATTRIB attached to INSERT (transformed with the block reference) not modelled",
     "MLINE: element lines follow similarities only (one scalar scale factor): non-uniform scaling moves the vertices, the line spacing is "
     "kept (documented in the source); vertex directions / miter are regenerated by update_geometry, not modelled",
-    "not proved: DIMENSION block content, SHAPE, POLYMESH / POLYFACE control flow, explode(), multi_insert() grid expansion: oracle only; "
-    "atan2 / isclose numerics",
+    "not proved: DIMENSION block content, explode() dispatch, SHAPE / 2-D entities under NON-similar plane maps beyond points and "
+    "directions: oracle only; atan2 / isclose numerics",
 ]
 
 # ================================================================================================ own linear algebra
@@ -2885,6 +2885,34 @@ def matrix44_defs(read):
                       lean_name="insertMatrixGen")]
 
 
+def vertex_rule(read) -> str:
+    """3-D POLYLINE / POLYMESH / POLYFACE: `Polyline.transform` hands every VERTEX to `DXFVertex.transform(m)` in its non-2-D branch and
+    `DXFVertex.transform` skips face records and maps the location as a point (AST pin; any other shape is refused)"""
+    import ast
+    from translate.py2lean import Unsupported
+    tree = ast.parse(read("src/ezdxf/entities/polyline.py"))
+    rule = []
+    for c in tree.body:
+        if isinstance(c, ast.ClassDef) and c.name == "DXFVertex":
+            for n in c.body:
+                if isinstance(n, ast.FunctionDef) and n.name == "transform":
+                    body = [ast.unparse(st) for st in n.body if not (isinstance(st, ast.Expr) and isinstance(st.value, ast.Constant))]
+                    if body != ["if self.is_face_record:\n    return self", "self.dxf.location = m.transform(self.dxf.location)", "return self"]:
+                        raise Unsupported("DXFVertex.transform changed its shape")
+                    rule += ["face record: unchanged", "location: point"]
+        if isinstance(c, ast.ClassDef) and c.name == "Polyline":
+            for n in c.body:
+                if isinstance(n, ast.FunctionDef) and n.name == "transform":
+                    ifs = [st for st in n.body if isinstance(st, ast.If) and ast.unparse(st.test) == "self.is_2d_polyline"]
+                    if len(ifs) != 1 or [ast.unparse(st) for st in ifs[0].orelse] != ["for vertex in self.vertices:\n    vertex.transform(m)"]:
+                        raise Unsupported("Polyline.transform (3-D branch) changed its shape")
+                    rule += ["3-D polyline / mesh / polyface: every vertex"]
+    if len(rule) != 3:
+        raise Unsupported("polyline.py: vertex transformation not found")
+    return ("/-- how 3-D POLYLINE / POLYMESH / POLYFACE vertices are transformed (AST pin of DXFVertex.transform and Polyline.transform) -/\n"
+            "def vertexRule : List String := [" + ", ".join(json.dumps(x) for x in rule) + "]\n\n")
+
+
 def regenerate(ctx):
     from translate.py2lean import lean_file
     defs = kernel_defs(ctx.src) + rytz_defs(ctx.src) + mline_defs(ctx.src) + matrix44_defs(ctx.src)
@@ -2893,6 +2921,7 @@ def regenerate(ctx):
     hd, htext = hatch_defs(ctx.src)
     defs += hd
     htext += dimension_tables(ctx.src)
+    htext += vertex_rule(ctx.src)
     cdefs, ctext, _ = conv_defs(ctx.src)
     defs += cdefs
     htext += ctext
@@ -3734,6 +3763,79 @@ def corr_translate(ctx):
     return out
 
 
+def corr_multi_insert(ctx):
+    """MINSERT: Insert.matrix44() of every grid element yielded by multi_insert() vs the model's grid cell (insert moved by the rotated
+    OCS offset (col * column_spacing, row * row_spacing))"""
+    from ezdxf.math import OCS, Vec3
+    r = ctx.rng("corr/multi-insert")
+    eg = EG(r)
+    world = World()
+    out = []
+    S = "X18 multi_insert grid elements"
+    for _ in range(ctx.n(150, 1200)):
+        rc = eg.insert("LEAF", grid=True)
+        if world.n > 3000:
+            world = World()
+        e = build(world.layout(), rc)
+        d = e.dxf
+        o = OCS(Vec3(d.extrusion))
+        nr, nc = d.row_count, d.column_count
+        if not (d.row_spacing and d.column_spacing):
+            continue
+        cells = list(e.multi_insert())
+        if len(cells) != nr * nc:
+            continue
+        k = 0
+        for row in range(nr):
+            for col in range(nc):
+                req = ["mcell", ocs_str(o), frs(d.insert), frs((d.xscale, d.yscale, d.zscale)), frs(_cs(d.rotation)), frs(world.base_of("LEAF")),
+                       str(col), str(row), fr(d.column_spacing), fr(d.row_spacing)]
+                out.append(("|".join(req + [ok(list(cells[k].matrix44())), "1/1000000000"]), "agree", col + row > 0))
+                ctx.hist(S, f"col{col}row{row}")
+                k += 1
+    return out
+
+
+def corr_shape(ctx):
+    """Shape.transform (insert, rotation, size, xscale with sign, thickness) vs the model, given the OCS frames of the real
+    OCSTransform"""
+    from ezdxf.math import Matrix44, Vec3
+    from ezdxf.math.transformtools import OCSTransform
+    r = ctx.rng("corr/shape")
+    eg, mg = EG(r), MG(r)
+    world = World()
+    out = []
+    S = "X19 SHAPE"
+    for _ in range(ctx.n(300, 2500)):
+        rc = eg.shape()
+        a = rc["a"]
+        a["rotation"] = r.choice([0.0, 30.0, 90.0, 135.0, -45.0, 200.0])
+        a["size"] = r.choice([2.0, 0.5, 1.25])
+        a["xscale"] = r.choice([1.0, 2.0, -1.0, -0.5])
+        if r.random() < 0.4:
+            a["thickness"] = r.choice([1.0, -2.5])
+        n = recipe_extrusion(rc)
+        k = r.random()
+        mr = mg.similarity() if k < 0.5 else mg.affine() if k < 0.75 else mg.plane(n, r.choice(["planesim", "stretch", "shear"]))
+        m = build_matrix(mr)
+        cl = classify(m, n)
+        if cl.get("plane") == "band" or abs(cl["det"]) < 1e-9:
+            continue
+        if world.n > 3000:
+            world = World()
+        e = build(world.layout(), rc)
+        d = e.dxf
+        M = Matrix44(mat16(m))
+        ot = OCSTransform(Vec3(d.extrusion), M)
+        req = ["shape", frs(mat16(m)), ocs_str(ot.old_ocs), ocs_str(ot.new_ocs), frs(d.insert), frs(_cs(d.rotation)), fr(d.size), fr(d.xscale),
+               fr(d.thickness) if d.hasattr("thickness") else "n"]
+        e.transform(M)
+        val = ok(d.insert, _cs(d.rotation), [d.size], [d.xscale], [d.thickness] if d.hasattr("thickness") else None)
+        ctx.hist(S, f"{cl.get('plane')}:{'neg' if a['xscale'] < 0 else 'pos'}")
+        out.append(("|".join(req + [val, "1/100000000"]), "agree", True))
+    return out
+
+
 def corr_temp(ctx):
     """histories of transform() calls on ACIS entities: the pending matrix of the real entity vs the model's fold"""
     from ezdxf.math import Matrix44
@@ -3775,5 +3877,6 @@ def correspond(ctx):
                        ("X10 rytz_axis_construction / minor_axis", corr_rytz), ("X11 MLINE scale factor and vertices", corr_mline),
                        ("X12 DIMENSION definition points and angles", corr_dimension), ("X13 2-D POLYLINE", corr_polyline2d),
                        ("X14 ConstructionEllipse.transform (axes)", corr_ellipse), ("X15 HATCH ellipse edge axes", corr_ellipse_edge),
-                       ("X16 MINSERT spacing", corr_minsert), ("X17 translate() fast paths", corr_translate)):
+                       ("X16 MINSERT spacing", corr_minsert), ("X17 translate() fast paths", corr_translate),
+                       ("X18 multi_insert grid elements", corr_multi_insert), ("X19 SHAPE", corr_shape)):
         ctx.correspond(stream, "C12", fn(ctx), build=DRIVER_DEPS)
